@@ -68,10 +68,13 @@ STRINGS = [("s_empty", '""'), ("s_a", '"a"'), ("s_abc", '"abc def"'), ("s_fmt", 
            ("s_99", 'rep("w", 99)'), ("s_100", 'rep("w", 100)'), ("s_101", 'rep("w", 101)'), ("s_128", 'rep("h", 128)'), ("s_200", 'rep("q", 200)'),
            ("s_1000", 'rep("k", 1000)'), ("s_1023", 'rep("k", 1023)'), ("s_1024", 'rep("k", 1024)'), ("s_2047", 'rep("m", 2047)'),
            ("s_2048", 'rep("m", 2048)'), ("s_2049", 'rep("m", 2049)'), ("s_4097", 'rep("n", 4097)'), ("s_words", 'rep("word ", 300)'),
-           ("s_longpath", '"/" + rep("d/", 700) + "x"'), ("s_verb", 'rep("v", 100) + " arg"'), ("s_dotc", 'rep("p", 250) + ".c"')]
+           ("s_longpath", '"/" + rep("d/", 700) + "x"'), ("s_verb", 'rep("v", 100) + " arg"'), ("s_dotc", 'rep("p", 250) + ".c"'),
+           ("s_re_end", '"a*a{2}|$"'), ("s_re_star", '"x*"'), ("s_subject", '"aab xx abaab xx ab"')]
 ARRAYS = [("a_empty", "({ })"), ("a_1", "({ 1 })"), ("a_mixed", '({ 1, "a", 2.5, ({ }) })'), ("a_8", "mkarr(8)"), ("a_1000", "mkarr(1000)"),
           ("a_max", "mkarr(15000)"), ("a_self", "selfarr()"), ("a_shared", "sharedarr()"), ("a_str", '({ "b", "a", "c" })'),
-          ("a_dead", "holder_dead()"), ("a_nested", "({ ({ ({ 1 }) }) })")]
+          ("a_dead", "holder_dead()"), ("a_nested", "({ ({ ({ 1 }) }) })"),
+          # regular expressions that match the empty string / only at the end, with a token array of the same size (reg_assoc, regexp)
+          ("a_re", '({ "a*a{2}|$", "$" })'), ("a_re2", '({ "x*", "(a|b)*c|^" })'), ("a_tok2", "({ 1, 2 })")]
 MAPPINGS = [("m_empty", "([ ])"), ("m_1", "([ 1 : 2 ])"), ("m_str", '([ "a" : 1, "b" : ({ 2 }) ])'), ("m_100", "mkmap(100)"),
             ("m_self", "selfmap()"), ("m_big", "mkmap(3000)")]
 CLASSES = [("c_inst", "mkclass()"), ("c_empty", "emptyclass()")]
